@@ -69,16 +69,19 @@ func arrayValidations(itemType string, thorough bool) []string {
 	return []string{"", "items", "unique"}
 }
 
-type tf struct{ t, f string }
+type tf struct{ t, f, reg string }
 
 func declarations(thorough bool) []Decl {
-	scalars := []tf{{"string", ""}, {"string", "byte"}, {"string", "date"}, {"string", "date-time"}, {"string", "uuid"},
-		{"integer", ""}, {"integer", "int8"}, {"integer", "int16"}, {"integer", "int32"}, {"integer", "int64"},
-		{"number", ""}, {"number", "float"}, {"number", "double"}, {"boolean", ""}}
-	items := []tf{{"string", ""}, {"integer", "int32"}, {"number", "double"}, {"boolean", ""}}
+	scalars := []tf{{t: "string"}, {t: "string", f: "byte"}, {t: "string", f: "date"}, {t: "string", f: "date-time"}, {t: "string", f: "uuid"},
+		{t: "integer"}, {t: "integer", f: "int8"}, {t: "integer", f: "int16"}, {t: "integer", f: "int32"}, {t: "integer", f: "int64"},
+		{t: "number"}, {t: "number", f: "float"}, {t: "number", f: "double"}, {t: "boolean"},
+		// formats registry axis: the application's own registry (userfmt.go)
+		{"string", "x-shout", "own"}, {"string", "hexcolor", "own"}}
+	items := []tf{{t: "string"}, {t: "integer", f: "int32"}, {t: "number", f: "double"}, {t: "boolean"}, {"string", "x-shout", "own"}}
 	if thorough {
-		scalars = append(scalars, tf{"string", "email"}, tf{"string", "ipv4"}, tf{"string", "duration"})
-		items = append(items, tf{"integer", "int64"}, tf{"number", ""})
+		scalars = append(scalars, tf{t: "string", f: "email"}, tf{t: "string", f: "ipv4"}, tf{t: "string", f: "duration"},
+			tf{t: "string", f: "hexcolor"}, tf{"string", "date", "own"})
+		items = append(items, tf{t: "integer", f: "int64"}, tf{t: "number"}, tf{"string", "hexcolor", "own"}, tf{t: "string", f: "uuid"})
 	}
 	var out []Decl
 	for _, loc := range []string{"path", "query", "header", "formU", "formM"} {
@@ -108,7 +111,7 @@ func declarations(thorough bool) []Decl {
 									continue
 								}
 								d := base
-								d.Type, d.Format, d.Valid = s.t, s.f, v
+								d.Type, d.Format, d.Valid, d.Registry = s.t, s.f, v, s.reg
 								out = append(out, d)
 							}
 						}
@@ -122,7 +125,7 @@ func declarations(thorough bool) []Decl {
 										continue
 									}
 									d := base
-									d.Type, d.ItemType, d.ItemFormat, d.CF, d.Valid = "array", it.t, it.f, cf, v
+									d.Type, d.ItemType, d.ItemFormat, d.CF, d.Valid, d.Registry = "array", it.t, it.f, cf, v, it.reg
 									out = append(out, d)
 								}
 							}
@@ -213,10 +216,14 @@ func txts(s ...string) []Txt {
 // requests: every request enumerated for one declaration.
 func requests(d Decl) []Req {
 	var texts []string
+	et, ef := d.elem()
 	if d.Type == "array" {
-		texts = arrayTexts[d.ItemType]
+		texts = arrayTexts[et]
+		if t, ok := arrayTexts[et+":"+ef]; ok {
+			texts = t
+		}
 	} else {
-		texts = scalarTexts(d.Type, d.Format)
+		texts = scalarTexts(et, ef)
 	}
 	first, last := firstLast(d)
 	var out []Req
@@ -365,6 +372,7 @@ func main() {
 		"required":          2,
 		"default":           "none | the standard valid default of the type",
 		"allowEmptyValue":   "query and formData only",
+		"formats_registry":  "default registry | the application's own registry (strfmt.NewFormats()+Add at the Bind levels, untyped.API.RegisterFormat at the handler level) with user format x-shout (own Go type, upper-casing UnmarshalText, own validator) and a user hexcolor shadowing the built-in name; scalars and array items, every location",
 		"collection_format": []string{"(none)", "csv", "ssv", "tsv", "pipes", "multi (query, formData)"},
 		"presence":          "absent, empty, once (every text), twice (valid first + every text; every text + valid last), three times, empty twice, other spellings of the name on the wire, decoys in the other locations",
 	})
